@@ -1,38 +1,72 @@
 """C10 - HTTP client and server exchange exact methods, headers, status and bodies (spec/HttpExchange.tla)."""
+import concurrent.futures as cf
 import os
 import subprocess
 import vlib
 
 META = {
-    "engine": "HttpExchange.tla, HttpProtocol.tla, HttpCases.tla, Trace_HttpExchange.tla",
+    "engine": "HttpExchange.tla, HttpProtocol.tla, HttpCases.tla, Trace_HttpExchange.tla, "
+              "HttpRedirect.tla, MC_HttpRedirect.tla, Trace_HttpRedirect.tla, "
+              "HttpServerRules.tla, MC_HttpServerRules.tla, Trace_HttpServerRules.tla, "
+              "HttpStatic.tla, MC_HttpStatic.tla, Trace_HttpStatic.tla, "
+              "HttpTransfer.tla, HttpTransferCases.tla, Trace_HttpTransfer.tla",
     "technique": "TLC checks the isolation protocol (HttpProtocol.tla) and generates exchange descriptors with the views the handler "
                  "and the client must observe (HttpCases.tla: targets, queries, headers, body lengths at every block boundary, "
                  "status codes, JSON and file bodies with every byte range); each is executed between the real Http client and "
                  "HttpServer on loopback; recorded concurrent / keep-alive / fragmented runs are validated by TLC against "
-                 "HandlerView/ClientView",
+                 "HandlerView/ClientView.  Around the exchange four more modules are model-checked and bound in both directions: "
+                 "HttpRedirect.tla (Http::request's redirections as a bounded transition system over sites with loops; at most 4 "
+                 "requests, then 421; method/body rules of 301/302/307/308; what is delivered), HttpServerRules.tla (the "
+                 "connection as a transition system: OPTIONS, Allow/405, CORS, HTTP/1.0 and Connection: close/keep-alive, Expect: "
+                 "100-continue and its refusal), HttpStatic.tla (serveFile over a file tree that is rewritten and removed between "
+                 "requests: index.html, 301 for directories, 404, 501, If-Modified-Since/304, byte ranges, mime types, "
+                 "Last-Modified, Cache-Control; the invariant CacheCoherent says a revalidated copy is current, and TLC refutes it "
+                 "for the pinned one-second-slack rule), HttpTransfer.tla (multipart/form-data envelope of Http::upload with "
+                 "RFC 2046 boundary rules, Http::download, JSON / form-urlencoded request bodies, text()/json(), is(pattern)/"
+                 "suffix()).  R: every history/case TLC prints is executed by harness/c10_site_replay.cpp against real servers "
+                 "(library client or raw socket, real temp directory); V: harness/c10_site_record.cpp runs random scenarios from "
+                 "several threads and TLC validates them with the modules' own actions (Trace_Http*.tla)",
     "design_ref": "DESIGN.md section 6, C10",
-    "level_text": "Model checking of the exchange protocol plus spec-generated conformance cases replayed through the real client and "
-                  "server, and trace validation of recorded runs with 1..64 concurrent clients, keep-alive sequences and raw "
-                  "fragmented senders; all under ASan.",
+    "level_text": "Model checking of the exchange protocol, of the redirect machine (HttpRedirect.tla), of the server's connection "
+                  "rules (HttpServerRules.tla) and of static serving over a mutable file tree (HttpStatic.tla), plus spec-generated "
+                  "conformance cases (HttpCases.tla, HttpTransferCases.tla) replayed through the real client and server, and "
+                  "trace validation of recorded runs (1..64 concurrent clients, keep-alive sequences, raw fragmented senders; "
+                  "concurrent redirect chains, raw connection histories, tree operations, uploads/downloads/routing calls) "
+                  "against Trace_HttpExchange / Trace_HttpRedirect / Trace_HttpServerRules / Trace_HttpStatic / "
+                  "Trace_HttpTransfer; all under ASan.",
     "level_note": "Bodies are compared by length and 64-bit hash computed by the harness on both sides (the spec compares the atoms). "
                   "The library has no API to terminate a streamed (chunked) response, so chunked framing is exercised for requests "
-                  "(raw clients) only. OS interleavings of handlers are sampled, not enumerated.",
+                  "(raw clients) only. OS interleavings of handlers are sampled, not enumerated. Left unconstrained because the "
+                  "library's documentation does not define them: what a call returns after a relative or missing Location (only "
+                  "that no further request is made), 303, POST turned into GET or kept by 301/302 (both accepted), HEAD responses "
+                  "with a body, 100-continue asked by an HTTP/1.0 peer, the json() fall-back to a query string, patterns with a "
+                  "'*' that is not last and suffix() after a failed match, the body of 404/501 answers, the Content-Type of files "
+                  "without extension. File times are whole seconds (POSIX); the static tree lives in a real directory under the "
+                  "check's scratch directory.",
 }
 
 
 def run(ctx):
     lib = vlib.build_lib("asan")
     os.makedirs(os.path.join(vlib.BUILD, "tmp"), exist_ok=True)
+    ctx.rule = ("cases = every descriptor emitted by HttpCases.tla (one exchange each) and every case emitted by HttpRedirect / "
+                "HttpServerRules / HttpStatic / HttpTransferCases (one call, connection history, tree history or transfer each); "
+                "non-trivial = all; distinct by line")
+    # three independent lanes: the exchange itself (R, V), the behaviour around it (R), the same recorded (V)
+    with cf.ThreadPoolExecutor(3) as ex:
+        lanes = [ex.submit(exchange, ctx, lib), ex.submit(grow_r, ctx, lib), ex.submit(grow_v, ctx, lib)]
+        for f in lanes:
+            f.result()
+
+
+def exchange(ctx, lib):
     ctx.model("HttpProtocol", "MC_HttpProtocol", workers=4, timeout=300)
     cases = os.path.join(ctx.tmp, "c10.cases")
     ctx.model("HttpCases", ctx.pick("MC_HttpCases_quick", "MC_HttpCases_thorough"), emit_to=cases, workers=1, xss="1g",
               timeout=ctx.pick(300, 1800), must_cover=False)
     rep = vlib.build_harness(lib, "c10_replay", ["c10_replay.cpp"])
-    ctx.rule = ("cases = every descriptor emitted by HttpCases.tla (one exchange each); non-trivial = all; distinct by line")
     ctx.replay(rep, cases, label="R/HttpCases", args=["--batch", "40", "--case-timeout-ms", "60000"], timeout=ctx.pick(900, 3600),
                jobs=ctx.pick(8, 16))
-
-
     # V: concurrent library clients + raw fragmented / keep-alive / chunked clients
     rec = vlib.build_harness(lib, "c10_record", ["c10_record.cpp"])
     files = ctx.record(rec, ctx.pick(8, 32), ctx.pick(1500, 8000), "V/HttpExchange", timeout=ctx.pick(600, 2400))
@@ -41,8 +75,101 @@ def run(ctx):
                         "response descriptor so that cross-delivery is observable"]
 
 
+def zone(ctx, tz):
+    """HTTP dates are instants in GMT whatever the zone the server runs in (HttpStatic.tla: Last-Modified = the modification
+    time): the servers of the growth lanes run 8 h east (R) and 3 h 30 min west (V) of Greenwich; the exchange lane stays in UTC.
+    (UTC everywhere if the finding HttpDateLocalTime is registered as open.)"""
+    return "UTC" if "HttpDateLocalTime" in ctx.known else tz
+
+
+def grow_r(ctx, lib):
+    """R for the behaviour around an exchange: every case is printed by TLC from the module named and executed between the
+    library's client (or a raw socket) and real HttpServers by harness/c10_site_replay.cpp."""
+    tier = ctx.pick("quick", "thorough")
+    site = vlib.build_harness(lib, "c10_site_replay", ["c10_site_replay.cpp"])
+    # the rule of the pinned code ("not modified if mtime <= date + 1 s") must be refuted by TLC itself
+    r = vlib.tlc("MC_HttpStatic", "MC_HttpStatic_slack", workers=4, timeout=600)
+    if r.violated() != "CacheCoherent":
+        raise vlib.HarnessError("HttpStatic/slack: TLC did not refute the one-second slack (%s)\n%s" % (r.violated(), r.tail()))
+    ctx.engines.append("MC_HttpStatic/MC_HttpStatic_slack: If-Modified-Since rule with one second of slack refuted by TLC (CacheCoherent) as expected")
+    runs = (("MC_HttpRedirect", "MC_HttpRedirect_" + tier, "R/HttpRedirect", True, 4),
+            ("MC_HttpServerRules", "MC_HttpServerRules_" + tier, "R/HttpServerRules", True, 4),
+            ("MC_HttpStatic.tla", "MC_HttpStatic_sweep", "R/HttpStatic.sweep", True, 2),
+            ("MC_HttpStatic", "MC_HttpStatic_hist_" + tier, "R/HttpStatic.hist", True, 4),
+            ("HttpTransferCases", "MC_HttpTransferCases_" + tier, "R/HttpTransfer", False, 1))
+    if not ctx.quick:     # longer connection histories over one request per behaviour class
+        runs += (("MC_HttpServerRules.tla", "MC_HttpServerRules_deep", "R/HttpServerRules.deep", True, 4),)
+
+    def gen(run):
+        spec, cfg, label, cover, workers = run
+        cases = os.path.join(ctx.tmp, cfg + ".cases")
+        ctx.model(spec, cfg, emit_to=cases, workers=workers, xss="512m", timeout=ctx.pick(300, 2400), must_cover=cover)
+        return cases
+
+    # (the TLC runs are independent: generate concurrently; all cases go through the same replayer, in one sharded pass)
+    with cf.ThreadPoolExecutor(len(runs)) as ex:
+        files = list(ex.map(gen, runs))
+    merged = os.path.join(ctx.tmp, "site.cases")
+    with open(merged, "w") as out:
+        for (spec, cfg, label, cover, workers), cases in zip(runs, files):
+            n = 0
+            with open(cases) as f:
+                for ln in f:
+                    out.write(ln)
+                    n += 1
+            ctx.engines.append("%s: %d cases printed by %s/%s" % (label, n, spec.replace(".tla", ""), cfg))
+    ctx.replay(site, merged, label="R/HttpSite", args=["--batch", "60", "--case-timeout-ms", "60000"], timeout=ctx.pick(900, 3000),
+               jobs=ctx.pick(12, 16), env={"C10_TMP": ctx.tmp, "TZ": zone(ctx, "VRF-8")})
+
+
+GROW_V = ((1, "V/HttpRedirect", "Trace_HttpRedirect", b'{"e":"call"'),
+          (2, "V/HttpServerRules", "Trace_HttpServerRules", b'{"e":"conn"'),
+          (3, "V/HttpStatic", "Trace_HttpStatic", b'{"e":"tree"'),
+          (4, "V/HttpTransfer", "Trace_HttpTransfer", b'{"e":"'))
+
+
+def grow_v(ctx, lib):
+    """V for the same four modules: harness/c10_site_record.cpp runs seeded random scenarios of one kind from several threads
+    (plus unlogged load of the other kinds) and logs each scenario as one block; TLC validates the blocks with the module's
+    own actions / operators."""
+    rec = vlib.build_harness(lib, "c10_site_record", ["c10_site_record.cpp"])
+    events = {1: ctx.pick(1500, 12000), 2: ctx.pick(1500, 12000), 3: ctx.pick(1200, 10000), 4: ctx.pick(500, 4000)}
+
+    def record(m):
+        mode, label, spec, start = m
+        return ctx.record(rec, ctx.pick(2, 8), events[mode], label, extra_args=["--mode", str(mode)], timeout=ctx.pick(600, 2400),
+                          env={"C10_TMP": ctx.tmp, "TZ": zone(ctx, "VRF+3:30")})
+
+    with cf.ThreadPoolExecutor(len(GROW_V)) as ex:
+        recorded = list(ex.map(record, GROW_V))
+    def validate(mf):
+        (mode, label, spec, start), files = mf
+        ok = ctx.validate_traces(spec, spec, files, label=label, timeout=ctx.pick(900, 3000), xss="256m", parallel=4)
+        n = 0
+        if ok == len(files):
+            for f in files:
+                with open(f, "rb") as fh:
+                    n += sum(1 for ln in fh if ln.startswith(start) and not ln.startswith(b'{"e":"reset"'))
+        return n
+
+    with cf.ThreadPoolExecutor(len(GROW_V)) as ex:
+        ctx.traces += sum(ex.map(validate, zip(GROW_V, recorded)))    # scenarios (calls, connections, trees, transfers) accepted
+    ctx.assumptions += ["the scenarios of the recorded runs (sites, connection histories, tree operations, transfers) are random (seeded)"]
+
+
 def replay(path):
+    path = os.path.abspath(path)      # (TLC runs in spec/)
     lib = vlib.build_lib("asan")
+    base = os.path.basename(path)
+    for mode, label, spec, start in GROW_V:
+        if label.replace("/", "_") in base:
+            return vlib.replay_recorded(path, lib, "c10_site_record", ["c10_site_record.cpp"], spec, spec, xss="256m")
+    if not base.startswith("rec-") and not path.endswith(".ndjson"):
+        with open(path) as f:
+            if '"kind":' in f.readline():
+                rep = vlib.build_harness(lib, "c10_site_replay", ["c10_site_replay.cpp"])
+                r = subprocess.run([rep, "--single", path], env=vlib.run_env())
+                return 1 if r.returncode == 1 else (0 if r.returncode == 0 else 2)
     if os.path.basename(path).startswith("rec-") or path.endswith(".ndjson"):
         return vlib.replay_recorded(path, lib, "c10_record", ["c10_record.cpp"], "Trace_HttpExchange", "Trace_HttpExchange", xss="256m")
     rep = vlib.build_harness(lib, "c10_replay", ["c10_replay.cpp"])
